@@ -35,9 +35,6 @@ theorem setIfFlag_setIfFlag (st : St) (a b : Bool) : setIfFlag (setIfFlag st a) 
 theorem assocHas_setIfFlag (st : St) (b : Bool) : assocHas (setIfFlag st b).env.temp ifSuccess = true := by
   simp [setIfFlag, assocHas, assocGet_assocSet_same]
 
-/-- the state `mk_temp_var` leaves: the flag exists -/
-def withFlag (st : St) : St := if assocHas st.env.temp ifSuccess then st else setIfFlag st false
-
 theorem allVars_setIfFlag_cond (st : St) : True := trivial
 
 /-- IF with a true condition: runs the body from the state whose flag is set -/
@@ -47,7 +44,7 @@ theorem C05_if_true (ctx : Ctx) (pos : Pos) (word cond : Str) (st : St) (v : Val
     ifPre ctx pos word (some cond) st = .ok (.body (setIfFlag (withFlag st) true)) := by
   have h1 : ("IF".toList != "ELSE".toList) = true := by decide
   have h2 : ("IF".toList == "ELSE".toList) = false := by decide
-  simp only [ifPre, hw, h1, h2, withFlag] at hv ⊢
+  simp only [ifPre, ifCond, ifDecide, hw, h1, h2, withFlag] at hv ⊢
   simp [hv, bind, ht, setIfFlag_setIfFlag]
 
 /-- IF with a false condition: nothing runs and the flag is clear -/
@@ -57,7 +54,7 @@ theorem C05_if_false (ctx : Ctx) (pos : Pos) (word cond : Str) (st : St) (v : Va
     ifPre ctx pos word (some cond) st = .ok (.done { st := setIfFlag (withFlag st) false }) := by
   have h1 : ("IF".toList != "ELSE".toList) = true := by decide
   have h2 : ("IF".toList == "ELSE".toList) = false := by decide
-  simp only [ifPre, hw, h1, h2, withFlag] at hv ⊢
+  simp only [ifPre, ifCond, ifDecide, hw, h1, h2, withFlag] at hv ⊢
   simp [hv, bind, ht]
 
 /-- a new IF always starts a new chain: two states that differ only in the flag give the same decision -/
@@ -94,7 +91,7 @@ theorem C05_elif_after_taken (ctx : Ctx) (pos : Pos) (word cond : Str) (st : St)
     cases hg : assocGet st.env.temp ifSuccess with
     | none => simp [hg] at hflag
     | some x => simp [assocHas, hg]
-  simp only [ifPre, hw, h1, h2, h3, hhas, if_true] at hv ⊢
+  simp only [ifPre, ifCond, ifDecide, withFlag, hw, h1, h2, h3, hhas, if_true] at hv ⊢
   simp [hv, bind, hflag]
 
 /-- … and so does ELSE -/
@@ -108,7 +105,7 @@ theorem C05_else_after_taken (ctx : Ctx) (pos : Pos) (word : Str) (st : St)
     cases hg : assocGet st.env.temp ifSuccess with
     | none => simp [hg] at hflag
     | some x => simp [assocHas, hg]
-  simp [ifPre, hw, h1, h3, hhas, bind, hflag]
+  simp [ifPre, ifCond, ifDecide, withFlag, hw, h1, h3, hhas, bind, hflag]
 
 /-- while no branch has run, ELIF runs its body iff its condition is true, and then sets the flag -/
 theorem C05_elif_first_true (ctx : Ctx) (pos : Pos) (word cond : Str) (st : St) (v : Val)
@@ -118,7 +115,7 @@ theorem C05_elif_first_true (ctx : Ctx) (pos : Pos) (word cond : Str) (st : St) 
   have h1 : ("ELIF".toList != "ELSE".toList) = true := by decide
   have h2 : ("ELIF".toList == "ELSE".toList) = false := by decide
   have h3 : ("ELIF".toList == "IF".toList) = false := by decide
-  simp only [ifPre, hw, h1, h2, h3, hhas, if_true] at hv ⊢
+  simp only [ifPre, ifCond, ifDecide, withFlag, hw, h1, h2, h3, hhas, if_true] at hv ⊢
   simp [hv, bind, hflag, ht]
 
 theorem C05_elif_false (ctx : Ctx) (pos : Pos) (word cond : Str) (st : St) (v : Val)
@@ -128,7 +125,7 @@ theorem C05_elif_false (ctx : Ctx) (pos : Pos) (word cond : Str) (st : St) (v : 
   have h1 : ("ELIF".toList != "ELSE".toList) = true := by decide
   have h2 : ("ELIF".toList == "ELSE".toList) = false := by decide
   have h3 : ("ELIF".toList == "IF".toList) = false := by decide
-  simp only [ifPre, hw, h1, h2, h3, hhas, if_true] at hv ⊢
+  simp only [ifPre, ifCond, ifDecide, withFlag, hw, h1, h2, h3, hhas, if_true] at hv ⊢
   simp [hv, bind, hflag, ht]
 
 theorem C05_else_runs (ctx : Ctx) (pos : Pos) (word : Str) (st : St)
@@ -136,7 +133,7 @@ theorem C05_else_runs (ctx : Ctx) (pos : Pos) (word : Str) (st : St)
     ifPre ctx pos word none st = .ok (.body (setIfFlag st true)) := by
   have h1 : ("ELSE".toList != "ELSE".toList) = false := by decide
   have h3 : ("ELSE".toList == "IF".toList) = false := by decide
-  simp [ifPre, hw, h1, h3, hhas, bind, hflag]
+  simp [ifPre, ifCond, ifDecide, withFlag, hw, h1, h3, hhas, bind, hflag]
 
 /-- whatever the body of the taken branch does, afterwards the enclosing chain sees "taken" -/
 theorem C05_body_keeps_flag (child : Option ChildFn) (ctx : Ctx) (pos : Pos) (block : List Node) (st : St) (o : Out)
